@@ -114,14 +114,36 @@ func NewWorld(kind StoreKind) *World {
 	return newWorldCdc(kind, theCodec())
 }
 
+// NewPlainWorld builds a world whose cctp keeper talks to the real dependencies
+// directly (no probe, no recording store service): used where several worlds
+// run on free-running goroutines.
+func NewPlainWorld(kind StoreKind) *World {
+	return newWorldOpt(kind, theCodec(), true, nil)
+}
+
+// NewSharedWorld builds a world with its own stores but the keepers (and store
+// keys) of base -- as a node shares one keeper between its check, deliver and
+// query contexts.
+func NewSharedWorld(base *World) *World {
+	return newWorldOpt(base.Kind, base.cdc, true, base)
+}
+
 func newWorldCdc(kind StoreKind, cdc codec.Codec) *World {
+	return newWorldOpt(kind, cdc, false, nil)
+}
+
+func newWorldOpt(kind StoreKind, cdc codec.Codec, plain bool, share *World) *World {
 	ensureConfig()
 	w := &World{Kind: kind, cdc: cdc}
 	logger := log.NewNopLogger()
 	root := dbm.NewMemDB()
 	w.cms = store.NewCommitMultiStore(root, logger, metrics.NewNoOpMetrics())
 	for i := 0; i < nStores; i++ {
-		w.keys[i] = storetypes.NewKVStoreKey(storeNames[i])
+		if share != nil {
+			w.keys[i] = share.keys[i]
+		} else {
+			w.keys[i] = storetypes.NewKVStoreKey(storeNames[i])
+		}
 		if kind == KindDB {
 			w.dbs[i] = &swapDB{DB: dbm.NewMemDB()}
 			w.cms.MountStoreWithDB(w.keys[i], storetypes.StoreTypeDB, w.dbs[i])
@@ -133,6 +155,10 @@ func newWorldCdc(kind StoreKind, cdc codec.Codec) *World {
 		panic(err)
 	}
 	w.ctx = sdk.NewContext(w.cms, cmtproto.Header{Height: 1, ChainID: "verif-1"}, false, logger)
+	if share != nil {
+		w.AK, w.BK, w.FTF, w.K, w.MS, w.Probe, w.Rec = share.AK, share.BK, share.FTF, share.K, share.MS, share.Probe, share.Rec
+		return w
+	}
 
 	maccPerms := map[string][]string{
 		ftftypes.ModuleName:  {authtypes.Minter, authtypes.Burner},
@@ -147,6 +173,11 @@ func newWorldCdc(kind StoreKind, cdc codec.Codec) *World {
 
 	w.Probe = &DepsProbe{bank: w.BK, ftf: w.FTF}
 	w.Rec = &RecStoreService{inner: runtime.NewKVStoreService(w.keys[stCCTP])}
+	if plain {
+		w.K = cctpkeeper.NewKeeper(cdc, logger, runtime.NewKVStoreService(w.keys[stCCTP]), w.BK, w.FTF)
+		w.MS = cctpkeeper.NewMsgServerImpl(w.K)
+		return w
+	}
 	w.K = cctpkeeper.NewKeeper(cdc, logger, w.Rec, w.Probe, w.Probe)
 	w.MS = cctpkeeper.NewMsgServerImpl(w.K)
 	return w
